@@ -71,7 +71,10 @@ def full_sub(sg):
     return {'nodes': [{'labels': [str(l) for l in n.labels], 'props': [[k, v] for k, v in dict(n).items()]} for n in nodes],
             'rels': [[idx[id(r.start_node)], type(r).__name__, idx[id(r.end_node)]] for r in sg.relationships]}
 
-_opaque = lambda t: re.sub(r"""['" ]""", '', t).replace('null', 'None').replace('true', 'True').replace('false', 'False')
+def _opaque(t):
+    t = re.sub(r"""['" ]""", '', t).replace('null', 'None').replace('true', 'True').replace('false', 'False')
+    # numbers by value: Python writes 1e-05 where the JSON text of the prelude says 0.00001
+    return re.sub(r'(?<![\w.])-?\d+\.?\d*(?:[eE][-+]?\d+)?(?![\w.])', lambda m: repr(float(m.group(0))), t)
 def _same_text(k, x, y):
     """`str(container)`: the prelude stores a FIXED rendering (`pyStrAtom`: strings between single quotes without escapes, a
     `ttc` dictionary with its values as JSON text) - the implementation's text must denote the same value"""
